@@ -16,6 +16,9 @@ R3  growth is reachable exactly when allowed: the yyrealloc of yy_ch_buf in yy_g
 R4  interactive reads stop at a newline: the getc loop of yyread (control dependent on yy_is_interactive) has exit
     edges on '\\n', on EOF and on max_size.
 
+R5  yyinput / yy_get_next_buffer contract: the offset saved before the refill is yy_c_buf_p - yytext_ptr - 1 at the call.
+    R4 also requires that getc is control dependent on the room test (no byte is taken from the stream without room).
+
 This module also holds the back-end identifier map and the buffer-pointer taint shared by c04.py and c08.py.
 """
 import re
@@ -870,12 +873,109 @@ def r4(ctx, sc):
                     if y[1] == -1: found['eof'] = d
                 elif is_max(x) or is_max(y): found['max_size'] = d
         miss = [k for k in ('newline', 'eof', 'max_size') if k not in found]
+        # the byte is taken from the stream only when there is room for it: the branch on the max_size comparison
+        # dominates the getc call and getc sits on exactly one side of it
+        room_first = False
+        if 'max_size' in found:
+            for b in body:
+                br = b.ins[-1]
+                if br.op != 'br' or not br.ops or b is g.blk: continue
+                if found['max_size'] not in cond_icmps(fn, br.ops[0]) or found['max_size'].blk is not b: continue
+                sides = [t for t in cfg.succ[b] if t is g.blk or cfg.dominates(t, g.blk)]
+                if cfg.dominates(b, g.blk) and len(sides) == 1: room_first = True
         if not inter:
             rep.fail('C03.R4', key + ':interactive', where(g), 'the getc loop of yyread is not controlled by yy_is_interactive [variant %s]' % v.name, variant=v.describe())
         elif miss:
             rep.fail('C03.R4', key + ':' + miss[0], where(g), 'the interactive getc loop of yyread has no exit edge on %s [variant %s]' % (miss[0], v.name), variant=v.describe())
+        elif not room_first:
+            rep.fail('C03.R4', key + ':room-before-getc', where(g), 'in the interactive loop of yyread getc() is not control dependent on the room test n < max_size: when the room is used up a byte has already been taken from the stream and is dropped [variant %s]' % v.name, variant=v.describe())
         else:
-            rep.ok('C03.R4', '%s yyread: getc@%s loop under yy_is_interactive exits on newline@%s, EOF@%s, max_size@%s' % (v.name, g.line, found['newline'].line, found['eof'].line, found['max_size'].line))
+            rep.ok('C03.R4', '%s yyread: getc@%s loop under yy_is_interactive exits on newline@%s, EOF@%s, max_size@%s; the room test dominates getc' % (v.name, g.line, found['newline'].line, found['eof'].line, found['max_size'].line))
+    return n
+
+# ---------------------------------------------------------------- R5
+
+class _Unknown(Exception):
+    pass
+
+def r5(ctx, sc, consts, eof):
+    """the contract between yyinput and yy_get_next_buffer: the callee keeps yy_c_buf_p - yytext_ptr - 1 bytes and puts the
+    new data right behind them, so the offset yyinput saves before the call and uses to re-derive yy_c_buf_p afterwards
+    (yy_c_buf_p = yytext_ptr + offset on the continue-scan arm) must be exactly one less than yy_c_buf_p - yytext_ptr at
+    the call.  Decided by a symbolic evaluation (position relative to yy_c_buf_p at entry) along the blocks that dominate
+    the call."""
+    rep = ctx.rep; v = sc.v; n = 0
+    for fn in sc.fns('INPUT'):
+        a = sc.fa(fn); cfg = sc.prog.cfg(fn)
+        for call in sc.calls(fn, 'GNB'):
+            sw, arms = gnb_arms(sc, fn, call, eof)
+            if sw is None: continue
+            # the rebase: yy_c_buf_p = yytext_ptr + <load of a local> on an arm that goes on scanning
+            offs = set()
+            for c in consts:
+                if c in eof or c not in arms: continue
+                for st in a.cell_stores('CBUFP'):
+                    if not cfg.dominates(arms[c], st.blk): continue
+                    g = fn.def_of(st.ops[0])
+                    if g is None or g.op != 'getelementptr' or len(g.ops) != 2: continue
+                    b = fn.def_of(g.ops[0])
+                    if b is None or b.op != 'load' or cell_role(a.loc(b.ops[0])) != 'TEXT': continue
+                    i = fn.def_of(flow.int_origin(fn, g.ops[1]))
+                    if i is not None and i.op == 'load' and a.loc(i.ops[0])[0] == 'local': offs.add(a.loc(i.ops[0])[1])
+            n += 1
+            key = 'C03.R5:%s:yyinput:saved-offset-is-one-less-than-scan-position' % skel(v)
+            if len(offs) != 1:
+                rep.broken('%s: the rebase yy_c_buf_p = yytext_ptr + offset after yy_get_next_buffer() was not found in %s (%s)' % (v.name, fn.name, sorted(offs)))
+            O = offs.pop()
+            chain = [b for b in fn.blocks if cfg.dominates(b, call.blk)]
+            # stores to yy_c_buf_p / yytext_ptr / the offset local outside the chain that can reach the call would make the
+            # straight-line evaluation unsound
+            side = [x for x in a.cell_stores('CBUFP') + a.cell_stores('TEXT') + a.local_stores(O)
+                    if x.blk not in chain and call in cfg.reach(x)]
+            cur = {}        # load register -> position of yy_c_buf_p (relative to entry) when it was loaded
+            def ptr_rel(val, depth=0):
+                d = fn.def_of(val)
+                if d is None or depth > 10: raise _Unknown()
+                if d.op == 'load' and cell_role(a.loc(d.ops[0])) == 'CBUFP' and d.res in cur: return cur[d.res]
+                if d.op == 'getelementptr' and len(d.ops) == 2 and d.ops[1][0] == 'int': return ptr_rel(d.ops[0], depth + 1) + d.ops[1][1]
+                if d.op == 'bitcast': return ptr_rel(d.ops[0], depth + 1)
+                raise _Unknown()
+            def int_rel(val, depth=0):
+                """value - (P0 - yytext_ptr) for an integer expression built from one pointer difference"""
+                d = fn.def_of(val)
+                if d is None or depth > 10: raise _Unknown()
+                if d.op in ('trunc', 'sext', 'zext'): return int_rel(d.ops[0], depth + 1)
+                if d.op in ('add', 'sub') and d.ops[1][0] == 'int':
+                    return int_rel(d.ops[0], depth + 1) + (d.ops[1][1] if d.op == 'add' else -d.ops[1][1])
+                if d.op == 'sub':
+                    x, y = fn.def_of(d.ops[0]), fn.def_of(d.ops[1])
+                    if x is not None and y is not None and x.op == 'ptrtoint' and y.op == 'ptrtoint':
+                        t = fn.def_of(y.ops[0])
+                        if t is not None and t.op == 'load' and cell_role(a.loc(t.ops[0])) == 'TEXT':
+                            return ptr_rel(x.ops[0])
+                raise _Unknown()
+            pos = 0; oval = None
+            try:
+                if side: raise _Unknown()
+                done = False
+                for b in chain:
+                    for x in b.ins:
+                        if x is call: done = True; break
+                        if x.op == 'load' and cell_role(a.loc(x.ops[0])) == 'CBUFP': cur[x.res] = pos
+                        elif x.op == 'store':
+                            l = a.loc(x.ops[1])
+                            if cell_role(l) == 'CBUFP' and x.ty is not None and x.ty.k == 'ptr': pos = ptr_rel(x.ops[0])
+                            elif cell_role(l) == 'TEXT' and x.ty is not None and x.ty.k == 'ptr': raise _Unknown()
+                            elif l == ('local', O): oval = int_rel(x.ops[0])
+                    if done: break
+                if oval is None: raise _Unknown()
+            except _Unknown:
+                rep.broken('%s: the saved offset / yy_c_buf_p before yy_get_next_buffer() in %s is not a plain pointer difference on straight-line code; C03.R5 cannot be decided' % (v.name, fn.name))
+            if pos - oval == 1:
+                rep.ok('C03.R5', '%s %s: at yy_get_next_buffer@%s yy_c_buf_p is entry%+d, the saved offset is (entry%+d) - yytext_ptr: one less' % (v.name, fn.name, call.line, pos, oval))
+            else:
+                rep.fail('C03.R5', key, where(call), 'yyinput saves offset = (yy_c_buf_p%+d) - yytext_ptr but calls yy_get_next_buffer() with yy_c_buf_p%+d (relative to entry): the callee keeps yy_c_buf_p - yytext_ptr - 1 bytes, so yy_c_buf_p = yytext_ptr + offset %s [variant %s]' % (
+                    oval, pos, 'skips the first byte read' if pos - oval < 1 else 'steps back into text already returned', v.name), variant=v.describe())
     return n
 
 # ---------------------------------------------------------------- driver
@@ -907,7 +1007,7 @@ def run(ctx):
     rep = ctx.rep
     vs = [v for v in ctx.variants() if usable(v)]
     rep.require(len(vs) >= 60, 'only %d scanner variants compiled to IR' % len(vs))
-    tot = {'R1': 0, 'R2': 0, 'R3': 0, 'R4': 0}
+    tot = {'R1': 0, 'R2': 0, 'R3': 0, 'R4': 0, 'R5': 0}
     backends = set()
     for v in vs:
         sc = Scanner(v)
@@ -916,6 +1016,7 @@ def run(ctx):
         tot['R1'] += r1(ctx, sc, lex, gnb, consts, eof)
         tot['R2'] += r2(ctx, sc, lex, gnb, consts, eof)
         tot['R3'] += r3(ctx, sc, gnb)
+        tot['R5'] += r5(ctx, sc, consts, eof)
         k = r4(ctx, sc)
         if k == 0: vac(rep, v, 'C03.R4: no stdio getc loop (%s)' % ('C++ reads through std::istream in LexerInput' if v.backend == 'cxx' else 'the scanner uses read(2): %option read or -Cf/-CF'))
         tot['R4'] += k
@@ -928,6 +1029,8 @@ def run(ctx):
     rep.require(tot['R2'] >= 12 * len(vs), 'C03.R2 matched %d instances, at least 12 per variant expected' % tot['R2'])
     rep.require(tot['R3'] >= 60, 'C03.R3 matched %d instances, one per non-REJECT variant expected' % tot['R3'])
     rep.require(tot['R4'] >= 60, 'C03.R4 matched %d instances, one per C variant with stdio input expected' % tot['R4'])
+    rep.require(tot['R5'] >= len(vs) - 8, 'C03.R5 matched %d instances, one per variant with yyinput expected' % tot['R5'])
+    rep.floor('C03.R5', 1, 'the refill call in yyinput')
     rep.floor('C03.R1', 1, 'two refill arms (continue-scan, last-match) in yylex of every variant')
     rep.floor('C03.R2', 1, 'yytext_ptr re-derivation, reallocs x (locals + 2 cells), refill arms of yylex and yyinput x (yy_c_buf_p + locals)')
     rep.floor('C03.R3', 1, 'one growth arm in yy_get_next_buffer of every non-REJECT variant')
